@@ -153,11 +153,9 @@ def sym_recv(inp, part):
     marked = inp.bool("marked")
     parked = False if part.get("noparked") else inp.bool("parked")
     if cmd == 3:
-        if c != 255:
-            raise Reject
         t = inp.int("t", part["tlo"], part["thi"])
-        if t == 3:
-            raise Reject  # id request may carry any child id: covered with c != 255 below? keep it simple: C11
+        if c != 255 and not (t == 3 or t == 4):
+            raise Reject  # only id request / response may carry another child id
         if cross_major and t == 14:
             raise Reject
         hb_exempt = t == 22 and new == "2.2" and old in ("2.0", "2.1")  # the stated exception, see below
